@@ -322,6 +322,102 @@ pub fn emit(repo: &str, outdir: &str, len_term: &mut dyn FnMut(&str, &Expr) -> O
             }
         }
     }
+    // write-back completeness of the engines' cached registers: for every exit of compress_normal /
+    // compress_fast / compress_stored, which of the locals that cache a field of `d` (declared
+    // before that exit) are stored back on the way out
+    let mut writebacks: Vec<String> = vec![];
+    {
+        fn path_str(e: &Expr) -> Option<String> {
+            match e {
+                Expr::Path(p) if p.path.segments.len() == 1 => Some(p.path.segments[0].ident.to_string()),
+                Expr::Field(f) => { let b = path_str(&f.base)?; if let Member::Named(n) = &f.member { Some(format!("{}.{}", b, n)) } else { None } }
+                _ => None,
+            }
+        }
+        // walk blocks keeping the chain of (statements before the current one) of every ancestor block
+        fn walk(stmts: &[Stmt], anc: &mut Vec<Vec<Stmt>>, cached: &mut Vec<(String, String)>, exits: &mut Vec<(usize, Vec<String>, Vec<String>)>) {
+            let mut before: Vec<Stmt> = vec![];
+            for st in stmts {
+                // cached register declarations: `let mut x = d.a.b;`
+                if let Stmt::Local(l) = st {
+                    if let (Pat::Ident(pi), Some(init)) = (&l.pat, &l.init) {
+                        if let Some(p) = path_str(&init.expr) { if p.starts_with("d.") { cached.push((pi.ident.to_string(), p)); } }
+                    }
+                }
+                let mut visit_expr = |e: &Expr, before: &Vec<Stmt>, anc: &mut Vec<Vec<Stmt>>, cached: &mut Vec<(String, String)>, exits: &mut Vec<(usize, Vec<String>, Vec<String>)>| {
+                    fn inner(e: &Expr, before: &Vec<Stmt>, anc: &mut Vec<Vec<Stmt>>, cached: &mut Vec<(String, String)>, exits: &mut Vec<(usize, Vec<String>, Vec<String>)>) {
+                        match e {
+                            Expr::Return(r) => {
+                                let mut written: Vec<String> = vec![];
+                                let mut scan = |sts: &Vec<Stmt>| { for s2 in sts { if let Stmt::Expr(Expr::Assign(a), _) = s2 { if let (Some(l), Some(rv)) = (path_str(&a.left), path_str(&a.right)) { if cached.iter().any(|(x, p)| *x == rv && *p == l) { written.push(l); } } } } };
+                                for a in anc.iter() { scan(a); }
+                                scan(before);
+                                let required: Vec<String> = cached.iter().map(|(_, p)| p.clone()).collect();
+                                exits.push((syn::spanned::Spanned::span(r).start().line, required, written));
+                            }
+                            Expr::If(i) => {
+                                anc.push(before.clone());
+                                walk(&i.then_branch.stmts, anc, cached, exits);
+                                if let Some((_, el)) = &i.else_branch { inner(el, &vec![], anc, cached, exits); }
+                                anc.pop();
+                            }
+                            Expr::Block(b) => { anc.push(before.clone()); walk(&b.block.stmts, anc, cached, exits); anc.pop(); }
+                            Expr::While(w) => { anc.push(before.clone()); walk(&w.body.stmts, anc, cached, exits); anc.pop(); }
+                            Expr::Loop(w) => { anc.push(before.clone()); walk(&w.body.stmts, anc, cached, exits); anc.pop(); }
+                            Expr::ForLoop(w) => { anc.push(before.clone()); walk(&w.body.stmts, anc, cached, exits); anc.pop(); }
+                            Expr::Match(m) => { for arm in &m.arms { inner(&arm.body, before, anc, cached, exits); } }
+                            Expr::Let(l) => inner(&l.expr, before, anc, cached, exits),
+                            _ => {}
+                        }
+                    }
+                    inner(e, before, anc, cached, exits)
+                };
+                match st {
+                    Stmt::Expr(e, _) => visit_expr(e, &before, anc, cached, exits),
+                    Stmt::Local(l) => { if let Some(init) = &l.init { visit_expr(&init.expr, &before, anc, cached, exits); if let Some((_, d)) = &init.diverge { visit_expr(d, &before, anc, cached, exits); } } }
+                    _ => {}
+                }
+                before.push(st.clone());
+            }
+        }
+        for (fi, ast) in &parsed {
+            for it in &ast.items {
+                if let Item::Fn(f) = it {
+                    let name = f.sig.ident.to_string();
+                    if !matches!(name.as_str(), "compress_normal" | "compress_fast" | "compress_stored") { continue; }
+                    let mut cached = vec![]; let mut exits = vec![]; let mut anc: Vec<Vec<Stmt>> = vec![];
+                    walk(&f.block.stmts, &mut anc, &mut cached, &mut exits);
+                    // the fall-through exit at the end of the function
+                    {
+                        let mut written = vec![];
+                        for s2 in &f.block.stmts { if let Stmt::Expr(Expr::Assign(a), _) = s2 { if let (Some(l), Some(rv)) = (path_str(&a.left), path_str(&a.right)) { if cached.iter().any(|(x, p)| *x == rv && *p == l) { written.push(l); } } } }
+                        exits.push((f.block.brace_token.span.close().start().line, cached.iter().map(|(_, p)| p.clone()).collect(), written));
+                    }
+                    // an exit that comes before the first loop of the function and before any assignment to a
+                    // cached local leaves every cached value equal to the field it was loaded from
+                    let first_effect = {
+                        use syn::visit::Visit;
+                        struct V { min: usize, names: Vec<String> }
+                        impl<'ast> Visit<'ast> for V {
+                            fn visit_expr_while(&mut self, w: &'ast ExprWhile) { self.min = self.min.min(syn::spanned::Spanned::span(w).start().line); syn::visit::visit_expr_while(self, w); }
+                            fn visit_expr_loop(&mut self, w: &'ast ExprLoop) { self.min = self.min.min(syn::spanned::Spanned::span(w).start().line); syn::visit::visit_expr_loop(self, w); }
+                            fn visit_expr_for_loop(&mut self, w: &'ast ExprForLoop) { self.min = self.min.min(syn::spanned::Spanned::span(w).start().line); syn::visit::visit_expr_for_loop(self, w); }
+                            fn visit_expr_assign(&mut self, a: &'ast ExprAssign) { if let Expr::Path(p) = &*a.left { if p.path.segments.len() == 1 && self.names.contains(&p.path.segments[0].ident.to_string()) { self.min = self.min.min(syn::spanned::Spanned::span(a).start().line); } } syn::visit::visit_expr_assign(self, a); }
+                            fn visit_expr_binary(&mut self, b: &'ast ExprBinary) { if matches!(b.op, BinOp::AddAssign(_) | BinOp::SubAssign(_) | BinOp::MulAssign(_) | BinOp::BitOrAssign(_) | BinOp::BitAndAssign(_) | BinOp::ShlAssign(_) | BinOp::ShrAssign(_)) { if let Expr::Path(p) = &*b.left { if p.path.segments.len() == 1 && self.names.contains(&p.path.segments[0].ident.to_string()) { self.min = self.min.min(syn::spanned::Spanned::span(b).start().line); } } } syn::visit::visit_expr_binary(self, b); }
+                        }
+                        let mut v = V { min: usize::MAX, names: cached.iter().map(|(x, _)| x.clone()).collect() };
+                        v.visit_block(&f.block);
+                        v.min
+                    };
+                    for (line, req, wr) in exits {
+                        let req = if line < first_effect { vec![] } else { req };
+                        let ids = |v: &Vec<String>, fnv: &mut Vec<String>| -> String { v.iter().map(|n| tid(n, fnv).to_string()).collect::<Vec<_>>().join(", ") };
+                        writebacks.push(format!("  ({}, {}, {}, [{}], [{}])", fi, tid(&name, &mut type_names), line, ids(&req, &mut field_names), ids(&wr, &mut field_names)));
+                    }
+                }
+            }
+        }
+    }
     let mut s = String::new();
     s.push_str("/-\nREGENERATED by /verif/translator (facts.rs) from every .rs file under /repo/miniz_oxide/src.\nDo not edit.\n-/\nimport MinizProof.Model.ProgramText\nimport MinizProof.Gen.All\nset_option maxRecDepth 100000\nnamespace Gen.Facts\nopen PT\n\n");
     writeln!(s, "def atomNames : List String := [{}]", atoms.names.iter().map(|x| format!("\"{}\"", x)).collect::<Vec<_>>().join(", ")).unwrap();
@@ -337,6 +433,7 @@ pub fn emit(repo: &str, outdir: &str, len_term: &mut dyn FnMut(&str, &Expr) -> O
     writeln!(s, "def items : List Item := [\n{}\n]", out.items.join(",\n")).unwrap();
     writeln!(s, "def structs : List Struct := [\n{}\n]", structs.join(",\n")).unwrap();
     writeln!(s, "/-- reset bodies: (type whose `reset`/`init` it is, struct it acts on, fields assigned or reset, resets delegated to) -/\ndef resets : List (Nat × Nat × List Nat × List Nat) := [\n{}\n]", resets.join(",\n")).unwrap();
+    writeln!(s, "/-- exits of the token engines: (file, function, line, fields cached in locals declared before the exit, fields stored back on the way out) -/\ndef engineExits : List (Nat × Nat × Nat × List Nat × List Nat) := [\n{}\n]", writebacks.join(",\n")).unwrap();
     writeln!(s, "/-- lengths listed in `big_array! {{ … }}` -/\ndef bigArrayLens : List Int := [{}]", big_lens.join(", ")).unwrap();
     let ty = |n: &str| type_names.iter().position(|x| x == n).map(|i| i.to_string()).unwrap_or("9999".into());
     for n in ["DecompressorOxide", "HuffmanTable", "InflateState", "CompressorOxide", "BlockBoundaryState", "ParamsOxide", "DictOxide", "LZOxide", "HuffmanOxide", "HashBuffers", "LocalBuf", "State", "TINFLStatus", "DataFormat", "TDEFLFlush", "TDEFLStatus", "MinReset", "ZeroReset", "FullReset"] {
